@@ -121,19 +121,19 @@ theorem send_rechecks_after_wait (mb mb' : MB) (n : Nat) (m : Msg) (out : SendOu
   simp only [MB.sendCore, hw, Kill.canWrite_of_killed hk, hk] at hs
   cases hf : mb.forceKilled <;> simp [hf] at hs <;> obtain ⟨rfl, rfl⟩ := hs <;> simp
 
-/-- the same for the sender thread of a reachable system: after the wake-up nothing is added to the log of
-pushed messages -/
+/-- the same for the sender thread of a system, auto-numbered (`num = none`, every send inside a pipeline) or explicitly
+numbered: after the wake-up nothing is added to the log of pushed messages -/
 theorem woken_sender_does_not_push (s s' : Sys) (hk : s.mb.killed = true)
-    (n : Nat) (m : Msg) (hpc : s.spc = .send (some n) m) (hw : s.mb.writeFlag = some true)
+    (num : Option Nat) (m : Msg) (hpc : s.spc = .send num m) (hw : s.mb.writeFlag = some true)
     (hs : step s .sender = some s') : s'.sent = s.sent ∧ s'.mb.heap = s.mb.heap := by
   simp only [Mailbox.step, stepSender, hpc] at hs
-  cases hsc : s.mb.sendStep (some n) m with
+  cases hsc : s.mb.sendStep num m with
   | none => simp [hsc] at hs
   | some r =>
     obtain ⟨out, mb'⟩ := r
-    have hsc' : s.mb.sendCore n m = some (out, mb') := by
+    have hsc' : s.mb.sendCore (resolveNum num s.mb.nSent) m = some (out, mb') := by
       unfold MB.sendStep at hsc; exact hsc
-    obtain ⟨ho, hh, _, _⟩ := send_rechecks_after_wait s.mb mb' n m out hw hk hsc'
+    obtain ⟨ho, hh, _, _⟩ := send_rechecks_after_wait s.mb mb' _ m out hw hk hsc'
     simp only [hsc] at hs
     cases hf : s.mb.forceKilled <;> simp [hf] at ho <;> subst ho <;>
       (simp only [Option.some.injEq] at hs; subst hs; exact ⟨rfl, hh⟩)
